@@ -113,3 +113,9 @@ func TestC16Mid(t *testing.T) {
 	defer st.Flush()
 	rapid.Check(t, c16Prop(st, FamMid))
 }
+
+func TestC16ManyFields(t *testing.T) {
+	st := NewStats("C16ManyFields", c16Rule)
+	defer st.Flush()
+	rapid.Check(t, c16Prop(st, FamManyFields))
+}
